@@ -203,6 +203,14 @@ func checkC05(c *Ctx) {
 	for _, nm := range []string{"RerootOutGroup", "RerootMidPoint", "Reroot", "UnRoot"} {
 		c.Require("REINDEX-LAST/tree.Tree." + nm + "/refresh-after-last-edit")
 	}
+	c.Decides("ARG-INPLACE: no function of package tree or of the commands filters a slice it received as a parameter in place (`p[:0]` then append): the outgroup list a caller reuses for the next tree is never compacted")
+	{
+		sites, _ := c.argInplace("ARG-INPLACE", append(c.AllFuncs("tree"), c.AllFuncs("cmd")...), "all tip subsets as outgroup ... names absent from the tree")
+		c.Trivial("ARG-INPLACE", "scan", 0, fmt.Sprintf("%d functions with a slice parameter", sites))
+	}
+	c.Decides("DESCEND-ALL: MaxLengthPath goes into every neighbour but the one it came from (no neighbour is skipped because of its branch)")
+	c.descendAll("DESCEND-ALL", c.Func("tree", "", "MaxLengthPath"), "after midpoint rooting the root lies halfway along a longest tip-to-tip path")
+	c.Floor("DESCEND-ALL", 1)
 	c.Decides("DUP-REFUSED: NewNodeIndex (the name look-up behind the outgroup LCA) refuses every tree in which a non-empty name occurs twice, whatever kind of node carries it: the error return depends on the look-up result and on nothing else")
 	c.dupNameRefused("DUP-REFUSED", c.Func("tree", "", "NewNodeIndex"), "that outgroup is exactly one of the two clades below the root")
 	c.Floor("DUP-REFUSED", 1)
@@ -467,9 +475,23 @@ func (c *Ctx) sentinelScan(pkgs []*packages.Package, armed bool) int {
 							case other == "0" && be.Op != token.EQL && be.Op != token.NEQ:
 								// does the guarded body transfer a length/support/pvalue ?
 								transfers := len(c.setterCalls(info, is.Body, "length", env.o))+len(c.setterCalls(info, is.Body, "support", env.o))+len(c.setterCalls(info, is.Body, "pvalue", env.o)) > 0
+								// a direct store into the field of another branch (`copy.length = e.length`) is a transfer too
+								ast.Inspect(is.Body, func(q ast.Node) bool {
+									if as, isAs := q.(*ast.AssignStmt); isAs {
+										for _, l := range as.Lhs {
+											if sel, isSel := unparen(l).(*ast.SelectorExpr); isSel {
+												switch sel.Sel.Name {
+												case "length", "support", "pvalue":
+													transfers = true
+												}
+											}
+										}
+									}
+									return true
+								})
 								if transfers {
 									n++
-									c.Violation("SENTINEL", key, be.Pos(), fmt.Sprintf("presence of the %s is tested with `%s %s 0`; 0 is a legal %s, so a zero-valued branch is treated as having none and the values guarded by this test are not transferred (the sentinel is NIL_%s)", fld, a, be.Op, fld, strings.ToUpper(fld))).Clause = "including zero-length branches"
+									c.Violation("SENTINEL", key, be.Pos(), fmt.Sprintf("presence of the %s is tested with `%s %s 0`; the 'absent' value is the sentinel NIL_%s (-1) and nothing else: 0 is a legal %s and so are the negative values some methods produce, and the values guarded by this test are not transferred for them", fld, a, be.Op, strings.ToUpper(fld), fld)).Clause = "including zero-length branches"
 								}
 							}
 						}
